@@ -27,6 +27,11 @@ type Net struct {
 	// Auto is the free-running policy run after every client frame (default: deliver
 	// everything queued, plain, in order).
 	Auto func(c *Conn)
+	// WriteFaults: how many more times the write of a frame may fail as a whole (nothing sent, an error returned,
+	// the connection stays usable: a write deadline that passed). Whether a given frame fails is an environment
+	// choice of the explorer. WriteFaulted names the threads whose write failed.
+	WriteFaults  int
+	WriteFaulted []string
 
 	mu   sync.Mutex
 	cond *sync.Cond
@@ -146,10 +151,28 @@ func (c *Conn) Read(b []byte) (int, error) {
 	}
 }
 
+// writeChoice: a thread parked at the start of a frame write; the environment lets it through or fails it.
+type writeChoice struct {
+	c    *Conn
+	fail bool
+}
+
+var errInjectedWrite = errors.New("write: i/o timeout (injected write failure)")
+
 func (c *Conn) Write(b []byte) (int, error) {
 	n := c.net
 	if n.S != nil {
-		n.S.Yield("conn-write")
+		if n.WriteFaults > 0 && c.announced && len(c.out) == 0 && c.live() {
+			wc := &writeChoice{c: c}
+			n.S.Wait(wc)
+			if wc.fail {
+				n.WriteFaults--
+				n.WriteFaulted = append(n.WriteFaulted, n.S.CurrentName())
+				return 0, errInjectedWrite
+			}
+		} else {
+			n.S.Yield("conn-write")
+		}
 	}
 	n.lock()
 	defer n.unlock()
@@ -274,6 +297,12 @@ func ConnOf(obj interface{}) *Conn {
 }
 
 func (n *Net) Alternatives(obj interface{}) int {
+	if _, ok := obj.(*writeChoice); ok {
+		if n.WriteFaults > 0 {
+			return 2 // 0: the frame goes out, 1: the write fails
+		}
+		return 1
+	}
 	rw := obj.(*readWait)
 	c := rw.c
 	if c.ctx.Err() != nil || c.closedLocal || c.closedPeer {
@@ -298,6 +327,10 @@ func (n *Net) Alternatives(obj interface{}) int {
 }
 
 func (n *Net) Apply(obj interface{}, alt int) {
+	if wc, ok := obj.(*writeChoice); ok {
+		wc.fail = alt == 1
+		return
+	}
 	c := obj.(*readWait).c
 	if c.ctx.Err() != nil || c.closedLocal || c.closedPeer || len(c.in) > 0 {
 		return
